@@ -172,6 +172,8 @@ class Peer:
         self.neighbor: 'Neighbor' = neighbor
         # The next restart neighbor definition
         self._neighbor: 'Neighbor' | None = None
+        # configuration whose replacement waits for the next session to be applied (see _reset / reconfigure)
+        self._unapplied: 'Neighbor' | None = None
 
         self.proto: Protocol | None = None
         self.fsm: FSM = FSM(self, FSM.IDLE)
@@ -275,6 +277,7 @@ class Peer:
         # If we are restarting, and the neighbor definition is different, update the neighbor
         if self._neighbor:
             self.neighbor = self._neighbor
+            self._unapplied = self._neighbor.previous
             self._neighbor = None
 
     def _stop(self, message: str) -> None:
@@ -357,6 +360,8 @@ class Peer:
         # Update self.neighbor immediately so API processes see the new configuration
         # during RELOAD (SIGUSR1), not just during connection reset
         if restart_neighbor:
+            # the reload before this one may still wait for the next session to be applied (replace_restart)
+            unapplied, self._unapplied = self._unapplied, None
             self.neighbor = restart_neighbor
 
             # If peer is not ESTABLISHED, update RIB directly since the main loop
@@ -364,6 +369,9 @@ class Peer:
             # GitHub issue #1126: stale adj-rib when neighbor offline during reload
             if self.fsm != FSM.ESTABLISHED and self.neighbor.rib:
                 previous = restart_neighbor.previous.routes if restart_neighbor.previous else []
+                if unapplied:
+                    # its removals are still owed: the routes it dropped are in the cache of what the peer was sent
+                    previous = list(unapplied.routes) + list(previous)
                 current = restart_neighbor.routes
                 self.neighbor.rib.outgoing.replace_reload(previous, current)
                 restart_neighbor.previous = None
@@ -724,6 +732,7 @@ class Peer:
         current = self.neighbor.routes
         self.neighbor.rib.outgoing.replace_restart(previous, current)
         self.neighbor.previous = None
+        self._unapplied = None
 
         self._delay.reset()
         log.debug(lazymsg('async.mainloop.started'), self.id())
